@@ -166,6 +166,13 @@ func oracleC01(f *sessionFam, w *World, res *Result) []Violation {
 			}
 			next[s]++
 		}
+		// a poll response the conformant client cannot decode at all (the decoder is chosen the way a browser
+		// client chooses it: by revision, JSONP and Content-Type) is not what the application sent either
+		if sp := f.spec(a); sp != nil && len(sp.Raw) == 0 && len(sp.Faults) == 0 {
+			if ud := w.evs(a, "c-poll-undecodable"); len(ud) > 0 {
+				l.add("identical-bytes", "undecodable-poll-response", fmt.Sprintf("%s [%s]: the client could not decode a poll response: %s", a, ctx, clip(ud[0].S, 120)))
+			}
+		}
 		// liveness: fault-free, session open to the end, client kept reading
 		if f.sc.FaultFree && f.ended && readyOf(f.snap[a]) == "open" && f.conformantToEnd(w, a) {
 			for _, s := range sortedKeys(bySender) {
